@@ -3,6 +3,7 @@ from .values import Str, Env, INF, Int
 
 
 DERIVED = {}   # cell id -> (parent cell, inverse-image function name)
+ORIGIN = {}    # cell minted for one position of a variable-length string -> the summary cell it was split from (coverage only)
 
 
 class StrOps:
@@ -65,6 +66,8 @@ class StrOps:
         pre = list(s.pre)
         while len(pre) < k:
             pre.append(env.new_cell(body))
+            if not isinstance(s.body, frozenset):
+                ORIGIN[pre[-1]] = s.body
         n = Str(pre, s.body, s.suf, s.lo, s.hi, s.imprecise, s.parent, s.roots, s.sid)
         if not env.replace_value(s, n):
             # not bound to a variable: the body cell may be shared with a base string that does
@@ -79,6 +82,8 @@ class StrOps:
         suf = list(s.suf)
         while len(suf) < k:
             suf.append(env.new_cell(body))
+            if not isinstance(s.body, frozenset):
+                ORIGIN[suf[-1]] = s.body
         n = Str(s.pre, s.body, suf, s.lo, s.hi, s.imprecise, s.parent, s.roots, s.sid)
         if not env.replace_value(s, n):
             n = Str(s.pre, env.new_cell(body), suf, s.lo, s.hi, True)
@@ -109,6 +114,8 @@ class StrOps:
                 cells.append(q)
             else:
                 cells.append(env.new_cell(env.cls(s.body)))
+                if not isinstance(s.body, frozenset):
+                    ORIGIN[cells[-1]] = s.body
         return Str(cells, imprecise=s.imprecise)
 
     def length(self, s):
